@@ -10,7 +10,7 @@ from props import _irb
 
 # which history operations exercise a function (for the replay search behind a failed obligation)
 FOCUS = {
-    'add_': ['add', 'add_cross', 'add_pin_instanced'], 'remove_': ['remove', 'remove_from'], 'create_': ['create_port', 'create_cable',
+    'add_': ['add', 'add_cross', 'add_pin_instanced', 'cross_policy_add'], 'remove_': ['remove', 'remove_from', 'top_wired', 'connect_outer'], 'create_': ['create_port', 'create_cable',
     'create_child', 'create_pin', 'create_pins', 'create_wire', 'create_wires', 'create_library', 'create_definition', 'create_child_dup'],
     'connect_pin': ['connect'], 'disconnect_pin': ['disconnect', 'disconnect_from'], 'reference': ['reference', 'unreference', 'create_child'],
     'reference=': ['reference', 'repoint_compatible', 'connect_outer', 'create_port', 'create_pin', 'create_child', 'add'],
@@ -70,6 +70,7 @@ def run(rep, pid, tier, seed, what):
     d = ir_proof(tier)
     rep.extra['proof_run'] = {'wall_s': d['wall_s'], 'reused_from_same_sources': d['reused'], 'source_key': d['key']}
     failed = []
+    undecided = set()
     n_mine = 0
     for r in d['functions']:
         fn = r['function']
@@ -85,6 +86,8 @@ def run(rep, pid, tier, seed, what):
             rep.p(o['name'], o['status'], o.get('backend') or 'z3', o['time_s'], fn, o.get('detail'))
             if o['status'] == 'failed':
                 failed.append((fn, o))
+            elif o['status'] == 'undecided':
+                undecided.add(fn)
     if n_mine == 0:
         rep.error('zero proof obligations generated for %s' % pid)
     for name, ok, detail in d['srules']:
@@ -97,6 +100,12 @@ def run(rep, pid, tier, seed, what):
     # a function that left the supported subset is decided by the bounded tier alone: concentrate extra histories on it
     for dg in rep.degraded:
         extra = _irb.run_histories(None, pid, 'quick', seed + 7, focus=_focus_for(dg['function']), nseeds=960)
+        rep.B['evaluations'] += 960
+        _irb.report_failures(rep, pid, extra)
+    # an obligation the back ends could not decide says nothing by itself (exit 2), but the function deserves the same concentrated
+    # bounded search as a degraded one: a native witness found there is a violation with a failing input
+    for fn in sorted(undecided):
+        extra = _irb.run_histories(None, pid, 'quick', seed + 11, focus=_focus_for(fn), nseeds=960)
         rep.B['evaluations'] += 960
         _irb.report_failures(rep, pid, extra)
     for fn, o in failed:
